@@ -41,7 +41,7 @@ func init() {
 		Exec:      exec,
 		Required: []string{"histories", "multi-order-case", "late-inherited-method", "diamond-instance", "tree-instance", "chain-instance",
 			"nested-whoppers", "multi-before", "multi-after", "shadowed-primary", "shadowed-default", "inherited-default",
-			"inherited-accessor", "inherited-keyword", "inherited-inittable", "accessor-vs-component-method"},
+			"inherited-accessor", "inherited-keyword", "inherited-inittable", "accessor-vs-component-method", "explicit-nil-init-keyword"},
 		Bound:         bound,
 		Selftest:      selftest,
 		CaseDeadlineS: 60,
@@ -108,6 +108,7 @@ func enumerate(tier string, emit func(string)) {
 	}
 	// simplest first
 	enumAccessors(emit)
+	enumNilinit(emit)
 	emitM(allDags(2, 3, false), 0, 3, "all", allKinds)
 	if tier == engine.Thorough {
 		emitM(allDags(3, 3, false), 0, 4, "all", allKinds)
@@ -828,6 +829,8 @@ func exec(spec string) (res engine.Result) {
 		return execVars(spec, parts)
 	case "acc":
 		return execAccessors(spec, parts)
+	case "nilinit":
+		return execNilinit(spec, parts)
 	}
 	res.Fail("harness:bad-spec", spec)
 	return
